@@ -6,8 +6,14 @@ def instances():
     return [(k, t, u, r) for (t, u) in PAIRS for k in ('left', 'right') for r in range(0, 5)]
 def key(i): return 'c20:%s:%s:%s:%d' % (i[0], i[1], i[2], i[3])
 def line(i): return 'c20 %s %s k=%s:%d' % (i[0], i[1], i[2], i[3])
+STATIC = [(k, t, s0, s1) for t in ('i32', 'i64') for (k, s0, s1) in (('left', 1, 3), ('left', 1, 5), ('left', 4, 1), ('right', 4, 1), ('right', 5, 1), ('right', 1, 3))]
+def skey(i): return 'c20s:%s:%s:%d_%d' % i
+def sline(i): return 'c20s %s %s k=%d_%d ext=3,4 str=%d,%d' % (i[0], i[1], i[2], i[3], i[2], i[3])
 def sources(ntu=8):
     tus = [[] for _ in range(ntu)]
+    for n, i in enumerate(STATIC):
+        from vf.common import ITYPES as _IT
+        tus[n % ntu].append('  regC20Static<%s, %s, %d, %d>("%s");' % (KINDS[i[0]], _IT[i[1]][2], i[2], i[3], skey(i)))
     for n, i in enumerate(instances()):
         k, t, u, r = i
         tus[n % ntu].append('  regC20<%s, %s, %s>("%s");' % (KINDS[k], cxx_extents(t, [None] * r), cxx_extents(u, [None] * r), key(i)))
